@@ -8,7 +8,8 @@ the empty state (`run init ops`): creation of cdata / Python objects, `ffi.gc`,
 `ffi.gc(x, None)`, `ffi.release` / `with`, aliasing through `p[0]`, storing
 references in Python containers (cycles), dropping references, and
 finalisation by the collector of any unreferenced set of objects at any step
-(`collect S`, accepted only when `collectOk` holds).
+(`collect S`, accepted only when `collectOk` holds).  Operations the
+implementation rejects leave the state unchanged, so they are covered too.
 -/
 namespace CffiVerif.C21
 open CffiVerif.Ownership
@@ -18,8 +19,10 @@ theorem reachable_inv (ops : List Op) : Inv (run init ops) := inv_run inv_init o
 
 /-- The collector rule is sound: a set accepted by `collectOk` contains no object
 reachable from the references the program holds. -/
-theorem collect_only_unreachable (s : State) (S : List Nat) (hok : collectOk s S = true)
-    (x : Nat) (hx : x ∈ S) : ¬ Reach s x := by
+theorem collect_only_unreachable (ops : List Op) (S : List Nat)
+    (hok : collectOk (run init ops) S = true) (x : Nat) (hx : x ∈ S) : ¬ Reach (run init ops) x := by
+  have hinv := reachable_inv ops
+  generalize run init ops = s at *
   unfold collectOk at hok
   simp only [Bool.and_eq_true, List.all_eq_true, List.mem_range] at hok
   obtain ⟨c1, c2⟩ := hok
@@ -30,13 +33,481 @@ theorem collect_only_unreachable (s : State) (S : List Nat) (hok : collectOk s S
     simp [hl] at this
     omega
   | edge y x oy _ hl hmem ih =>
-    have hlt : y < s.next := by
-      by_cases hlt : y < s.next
-      · exact hlt
-      · exfalso
-        -- an object that is live has been created
-        have := c2 y
-        sorry
-    sorry
+    have hlt : y < s.next := lt_next hinv (objs_of_live hl)
+    have := c2 y hlt
+    simp only [hl, Bool.or_eq_true, decide_eq_true_eq, List.all_eq_true, Bool.not_eq_eq_eq_not,
+      Bool.not_true, decide_eq_false_iff_not] at this
+    rcases this with hin | hout
+    · exact ih hin
+    · exact hout x hmem hx
+
+/-- **A destructor (or free function) is never called twice for one wrapper.** -/
+theorem destructor_at_most_once (ops : List Op) (x : Nat) : (run init ops).calls x ≤ 1 := by
+  unfold State.calls
+  split
+  · rename_i o ho; exact gcpInv_le_one ((reachable_inv ops).ghost x o ho)
+  · omega
+
+/-- The three clauses about one wrapper in a reachable state. -/
+theorem wrapper_calls (ops : List Op) (x : Nat) (o : Obj) (d orig : Option Nat)
+    (ho : (run init ops).objs x = some o) (hk : o.kind = .gcp d orig)
+    (hd : o.hadDtor = true) (hn : o.noned = false) :
+    ((o.alive = false ∨ o.released = true) → o.calls = 1) ∧
+    (o.calls = 1 → o.alive = false ∨ o.released = true) := by
+  have g := (reachable_inv ops).ghost x o ho
+  simp only [GcpInv, hk] at g
+  cases d with
+  | some dd =>
+    have := g.1 rfl
+    constructor
+    · intro h; rcases h with h | h <;> simp_all
+    · intro h; omega
+  | none =>
+    constructor
+    · intro _; rw [g.2.1 rfl]; simp [hd, hn]
+    · intro _; exact g.2.2 rfl hd hn
+
+/-- **`ffi.gc(p, d)`: at any later point of any history the destructor of the new
+wrapper has run exactly once if the wrapper has been released or deallocated
+(and `ffi.gc(g, None)` did not disarm it first), and has not run before that.** -/
+theorem destructor_exactly_once_when_dead_or_released (ops1 ops2 : List Op) (p d g : Nat)
+    (hgc : (step (run init ops1) (.gc p d)).2 = .ok [g]) :
+    ∃ o, (run (step (run init ops1) (.gc p d)).1 ops2).objs g = some o ∧ o.isAlloc = false ∧
+      o.calls ≤ 1 ∧
+      (o.noned = false → (o.alive = false ∨ o.released = true) → o.calls = 1) ∧
+      (o.calls = 1 → o.alive = false ∨ o.released = true) := by
+  have hinv := reachable_inv ops1
+  generalize hs : run init ops1 = s at *
+  -- the object created by the operation
+  have hnew : ∃ o0, (step s (.gc p d)).1.objs g = some o0 ∧ o0.kind = .gcp (some d) (some p) ∧
+      o0.hadDtor = true ∧ o0.isAlloc = false := by
+    simp only [step, opGc] at hgc ⊢
+    split at hgc
+    · split at hgc
+      · simp at hgc; subst hgc
+        simp [*, mkObj]
+      · simp at hgc
+    · simp at hgc
+  obtain ⟨o0, h0, hk0, hd0, ha0⟩ := hnew
+  have hinv1 := inv_step hinv (.gc p d)
+  obtain ⟨o, ho, ev⟩ := run_evolve hinv1 ops2 g o0 h0
+  obtain ⟨d', orig', hk⟩ := ev.gcp _ _ hk0
+  have hd' : o.hadDtor = true := by rw [ev.flags.1, hd0]
+  have hreach : run (step s (.gc p d)).1 ops2 = run init (ops1 ++ [.gc p d] ++ ops2) := by
+    simp [run, List.foldl_append, ← hs]
+  refine ⟨o, ho, by rw [ev.flags.2, ha0], ?_, ?_, ?_⟩
+  · rw [hreach] at ho
+    exact gcpInv_le_one ((reachable_inv _).ghost g o ho)
+  · intro hn
+    rw [hreach] at ho
+    exact (wrapper_calls _ g o d' orig' ho hk hd' hn).1
+  · intro hc
+    rw [hreach] at ho
+    by_cases hn : o.noned = false
+    · exact (wrapper_calls _ g o d' orig' ho hk hd' hn).2 hc
+    · -- disarmed first: the count is 0, not 1
+      have g' := (reachable_inv _).ghost g o ho
+      simp only [GcpInv, hk] at g'
+      cases d' with
+      | some dd => have := g'.1 rfl; omega
+      | none => have := g'.2.1 rfl; simp at hn; simp [hn] at this; omega
+
+/-- **After `ffi.gc(g, None)` the destructor of `g` is never called**, whatever
+follows (release, `with`, collection, ...): the call count stays what it was. -/
+theorem never_after_gc_none (ops1 ops2 : List Op) (g : Nat)
+    (hok : (step (run init ops1) (.gcNone g)).2 = .ok []) :
+    (run (step (run init ops1) (.gcNone g)).1 ops2).calls g = (run init ops1).calls g := by
+  have hinv := reachable_inv ops1
+  generalize run init ops1 = s at *
+  have hnew : ∃ o0 orig, (step s (.gcNone g)).1.objs g = some o0 ∧ o0.kind = .gcp none orig ∧
+      o0.calls = s.calls g := by
+    simp only [step, opGcNone] at hok ⊢
+    split at hok
+    · rename_i o hl
+      split at hok
+      · rename_i d orig hk
+        refine ⟨{ o with kind := .gcp none orig, noned := o.noned || d.isSome }, orig, by simp, rfl, ?_⟩
+        simp [State.calls, objs_of_live hl]
+      · simp at hok
+    · simp at hok
+  obtain ⟨o0, orig, h0, hk0, hc0⟩ := hnew
+  obtain ⟨o, ho, ev⟩ := run_evolve (inv_step hinv (.gcNone g)) ops2 g o0 h0
+  have h1 := (ev.gcpNone orig hk0).2
+  have h2 : (run (step s (.gcNone g)).1 ops2).calls g = o.calls := by simp [State.calls, ho]
+  rw [h2, h1, hc0]
+
+/-- **An allocation made by `new_allocator(alloc, free)`**: `free` is called at
+most once, exactly once when the allocation has been released or deallocated
+(unless `ffi.gc(x, None)` removed it), and not before. -/
+theorem free_fn_exactly_once (ops1 ops2 : List Op) (free g raw : Nat)
+    (hal : (step (run init ops1) (.allocPlain (some free))).2 = .ok [g, raw]) :
+    ∃ o, (run (step (run init ops1) (.allocPlain (some free))).1 ops2).objs g = some o ∧
+      o.isAlloc = true ∧ o.calls ≤ 1 ∧
+      (o.noned = false → (o.alive = false ∨ o.released = true) → o.calls = 1) ∧
+      (o.calls = 1 → o.alive = false ∨ o.released = true) := by
+  have hinv := reachable_inv ops1
+  generalize hs : run init ops1 = s at *
+  have hnew : ∃ o0, (step s (.allocPlain (some free))).1.objs g = some o0 ∧
+      o0.kind = .gcp (some free) (some raw) ∧ o0.hadDtor = true ∧ o0.isAlloc = true := by
+    simp only [step, opAllocPlain] at hal ⊢
+    split at hal
+    · simp at hal; obtain ⟨rfl, rfl⟩ := hal
+      simp [*, mkObj]
+    · simp at hal
+  obtain ⟨o0, h0, hk0, hd0, ha0⟩ := hnew
+  have hinv1 := inv_step hinv (.allocPlain (some free))
+  obtain ⟨o, ho, ev⟩ := run_evolve hinv1 ops2 g o0 h0
+  obtain ⟨d', orig', hk⟩ := ev.gcp _ _ hk0
+  have hd' : o.hadDtor = true := by rw [ev.flags.1, hd0]
+  have hreach : run (step s (.allocPlain (some free))).1 ops2 =
+      run init (ops1 ++ [.allocPlain (some free)] ++ ops2) := by
+    simp [run, List.foldl_append, ← hs]
+  refine ⟨o, ho, by rw [ev.flags.2, ha0], ?_, ?_, ?_⟩
+  · rw [hreach] at ho
+    exact gcpInv_le_one ((reachable_inv _).ghost g o ho)
+  · intro hn
+    rw [hreach] at ho
+    exact (wrapper_calls _ g o d' orig' ho hk hd' hn).1
+  · intro hc
+    rw [hreach] at ho
+    by_cases hn : o.noned = false
+    · exact (wrapper_calls _ g o d' orig' ho hk hd' hn).2 hc
+    · have g' := (reachable_inv _).ghost g o ho
+      simp only [GcpInv, hk] at g'
+      cases d' with
+      | some dd => have := g'.1 rfl; omega
+      | none => have := g'.2.1 rfl; simp at hn; simp [hn] at this; omega
+
+/-- The struct flavour (`allocator("struct s *")`): the wrapper is the struct
+object `sobj` behind the returned pointer; same guarantee. -/
+theorem free_fn_exactly_once_struct (ops1 ops2 : List Op) (free p sobj raw : Nat)
+    (hal : (step (run init ops1) (.allocStruct (some free))).2 = .ok [p, sobj, raw]) :
+    ∃ o, (run (step (run init ops1) (.allocStruct (some free))).1 ops2).objs sobj = some o ∧
+      o.isAlloc = true ∧ o.calls ≤ 1 ∧
+      (o.noned = false → (o.alive = false ∨ o.released = true) → o.calls = 1) ∧
+      (o.calls = 1 → o.alive = false ∨ o.released = true) := by
+  have hinv := reachable_inv ops1
+  generalize hs : run init ops1 = s at *
+  have hnew : ∃ o0, (step s (.allocStruct (some free))).1.objs sobj = some o0 ∧
+      o0.kind = .gcp (some free) (some raw) ∧ o0.hadDtor = true ∧ o0.isAlloc = true := by
+    simp only [step, opAllocStruct] at hal ⊢
+    split at hal
+    · simp at hal; obtain ⟨rfl, rfl, rfl⟩ := hal
+      simp [*, mkObj]
+    · simp at hal
+  obtain ⟨o0, h0, hk0, hd0, ha0⟩ := hnew
+  have hinv1 := inv_step hinv (.allocStruct (some free))
+  obtain ⟨o, ho, ev⟩ := run_evolve hinv1 ops2 sobj o0 h0
+  obtain ⟨d', orig', hk⟩ := ev.gcp _ _ hk0
+  have hd' : o.hadDtor = true := by rw [ev.flags.1, hd0]
+  have hreach : run (step s (.allocStruct (some free))).1 ops2 =
+      run init (ops1 ++ [.allocStruct (some free)] ++ ops2) := by
+    simp [run, List.foldl_append, ← hs]
+  refine ⟨o, ho, by rw [ev.flags.2, ha0], ?_, ?_, ?_⟩
+  · rw [hreach] at ho
+    exact gcpInv_le_one ((reachable_inv _).ghost sobj o ho)
+  · intro hn
+    rw [hreach] at ho
+    exact (wrapper_calls _ sobj o d' orig' ho hk hd' hn).1
+  · intro hc
+    rw [hreach] at ho
+    by_cases hn : o.noned = false
+    · exact (wrapper_calls _ sobj o d' orig' ho hk hd' hn).2 hc
+    · have g' := (reachable_inv _).ghost sobj o ho
+      simp only [GcpInv, hk] at g'
+      cases d' with
+      | some dd => have := g'.1 rfl; omega
+      | none => have := g'.2.1 rfl; simp at hn; simp [hn] at this; omega
+
+/-- **`ffi.release()` is idempotent** (in any state, reachable or not): a second
+release changes nothing and calls nothing. -/
+theorem release_idempotent (s : State) (x : Nat) (l : List Nat)
+    (hok : (step s (.release x)).2 = .ok l) :
+    step (step s (.release x)).1 (.release x) = ((step s (.release x)).1, .ok []) := by
+  simp only [step] at hok ⊢
+  unfold release at hok
+  split at hok
+  · simp at hok
+  · rename_i o ho
+    have hoa := ((live_def s x o).mp ho)
+    split at hok
+    · simp at hok
+    · -- owning, not a struct: no effect
+      rename_i hk
+      have e : release s x = (s, .ok []) := by unfold release; simp [ho, hk]
+      rw [e]; exact e
+    · simp at hok
+    · simp at hok
+    · rename_i sid hk
+      split at hok
+      · rename_i os hos
+        have hosa := ((live_def s sid os).mp hos)
+        split at hok
+        · rename_i d orig hks
+          have hne : x ≠ sid := by
+            intro e; subst e; rw [ho] at hos; simp at hos; subst hos; rw [hk] at hks; simp at hks
+          have e : release s x = (s.set sid { finalizeGcp os with released := true },
+              .ok (if fires os then [sid] else [])) := by
+            unfold release; simp [ho, hk, hos, hks]
+          rw [e]
+          have hf : finalizeGcp os = { os with kind := .gcp none none, calls := os.calls + (if d.isSome then 1 else 0) } := by simp [finalizeGcp, hks]
+          have l1 := live_set_other s sid x { finalizeGcp os with released := true } hne
+          have l2 := live_set_self s sid { finalizeGcp os with released := true }
+            (by rw [hf]; exact hosa.2)
+          unfold release
+          simp only [l1, ho, hk, l2]
+          rw [hf]
+          simp only [finalizeGcp, fires, Option.isSome_none, Bool.false_eq_true, if_false, Nat.add_zero]
+          congr 1
+          exact set_self (by simp)
+        · rename_i hnk
+          have e : release s x = (s, .ok []) := by
+            unfold release; simp only [ho, hk, hos]
+            try (split <;> first | rfl | (rename_i d orig hks; exact absurd hks (hnk d orig)))
+          rw [e]; exact e
+      · rename_i hnone
+        have e : release s x = (s, .ok []) := by unfold release; simp [ho, hk, hnone]
+        rw [e]; exact e
+    · rename_i d orig hk
+      have e : release s x = (s.set x { finalizeGcp o with released := true },
+          .ok (if fires o then [x] else [])) := by
+        unfold release; simp [ho, hk]
+      rw [e]
+      have hf : finalizeGcp o = { o with kind := .gcp none none, calls := o.calls + (if d.isSome then 1 else 0) } := by simp [finalizeGcp, hk]
+      have l2 := live_set_self s x { finalizeGcp o with released := true } (by rw [hf]; exact hoa.2)
+      unfold release
+      simp only [l2]
+      rw [hf]
+      simp only [finalizeGcp, fires, Option.isSome_none, Bool.false_eq_true, if_false, Nat.add_zero]
+      congr 1
+      exact set_self (by simp)
+    · rename_i src rel hk
+      by_cases hr : rel = true
+      · have e : release s x = (s, .ok []) := by unfold release; simp [ho, hk, hr]
+        rw [e]; exact e
+      · have e : release s x = (s.set x { o with kind := .frombuf src true, released := true }, .ok []) := by
+          unfold release; simp [ho, hk, hr]
+        rw [e]
+        have l2 := live_set_self s x { o with kind := .frombuf src true, released := true } hoa.2
+        unfold release
+        simp [l2]
+
+/-- **A `from_buffer` cdata keeps its source alive and export-locked** until it is
+released or deallocated: in every reachable state, if `f` is a live cdata with
+an unreleased view on `b`, then `b` is alive and resizing `b` raises BufferError. -/
+theorem frombuf_export_until_release (ops : List Op) (f b : Nat) (of : Obj)
+    (hf : (run init ops).objs f = some of) (ha : of.alive = true) (hk : of.kind = .frombuf b false) :
+    Alive (run init ops) b ∧ (step (run init ops) (.resize b)).2 = .error .BufferError := by
+  have hinv := reachable_inv ops
+  generalize run init ops = s at *
+  have hb : Alive s b := hinv.nd f of hf ha b (by simp [edges, hk])
+  refine ⟨hb, ?_⟩
+  obtain ⟨ob, hob, hba⟩ := hb
+  obtain ⟨ob', fl, hob', hbk⟩ := hinv.fb f of b false hf hk
+  rw [hob] at hob'; simp at hob'; subst hob'
+  have hl : s.live b = some ob := (live_def s b ob).mpr ⟨hob, hba⟩
+  have hany : (List.range s.next).any (exportsOn s b) = true := by
+    rw [List.any_eq_true]
+    refine ⟨f, List.mem_range.mpr (lt_next hinv hf), ?_⟩
+    have : s.live f = some of := (live_def s f of).mpr ⟨hf, ha⟩
+    simp [exportsOn, this, hk]
+  simp [step, opResize, hl, hbk, hany]
+
+/-- ... and the lock is gone as soon as no live unreleased view remains (after
+`ffi.release`, `with`, or deallocation of every view). -/
+theorem frombuf_resize_ok_iff_no_live_view (ops : List Op) (b : Nat) (ob : Obj) (fl : List Nat)
+    (hb : (run init ops).live b = some ob) (hk : ob.kind = .py .buf fl) :
+    (step (run init ops) (.resize b)).2 = .ok [] ↔
+      ¬ ∃ f of, (run init ops).live f = some of ∧ of.kind = .frombuf b false := by
+  have hinv := reachable_inv ops
+  generalize run init ops = s at *
+  simp only [step, opResize, hb, hk]
+  constructor
+  · intro h ⟨f, of, hf, hfk⟩
+    have hany : (List.range s.next).any (exportsOn s b) = true := by
+      rw [List.any_eq_true]
+      exact ⟨f, List.mem_range.mpr (lt_next hinv (objs_of_live hf)), by simp [exportsOn, hf, hfk]⟩
+    simp [hany] at h
+  · intro h
+    have hany : (List.range s.next).any (exportsOn s b) = false := by
+      rw [Bool.eq_false_iff]
+      intro hc
+      rw [List.any_eq_true] at hc
+      obtain ⟨f, _, hf⟩ := hc
+      unfold exportsOn at hf
+      split at hf
+      · rename_i o ho
+        exact h ⟨f, o, ho, by simpa using hf⟩
+      · simp at hf
+    simp [hany]
+
+/-- **Releasing a view unlocks**: after `ffi.release(f)` the cdata `f` holds no export. -/
+theorem release_drops_export (s : State) (f b : Nat) (l : List Nat)
+    (hok : (step s (.release f)).2 = .ok l) : exportsOn (step s (.release f)).1 b f = false := by
+  simp only [step] at hok ⊢
+  cases hl : s.live f with
+  | none => simp [release, hl] at hok
+  | some o =>
+    have hoa := (live_def s f o).mp hl
+    cases hk : o.kind with
+    | py t fl => simp [release, hl, hk] at hok
+    | handle x a => simp [release, hl, hk] at hok
+    | owning st =>
+      cases st
+      · simp [release, hl, hk, exportsOn]
+      · simp [release, hl, hk] at hok
+    | structptr sid =>
+      have hnf : ∀ s' : State, s'.live f = some o → exportsOn s' b f = false := by
+        intro s' h'; simp [exportsOn, h', hk]
+      unfold release
+      simp only [hl, hk]
+      split
+      · rename_i os hos
+        split
+        · rename_i d orig hks
+          have hne : f ≠ sid := by
+            intro e; subst e; rw [hl] at hos; simp at hos; subst hos; rw [hk] at hks; simp at hks
+          exact hnf _ (by rw [live_set_other _ _ _ _ hne]; exact hl)
+        · exact hnf _ hl
+      · exact hnf _ hl
+    | gcp d orig =>
+      have hf : finalizeGcp o = { o with kind := .gcp none none, calls := o.calls + (if d.isSome then 1 else 0) } := by
+        simp [finalizeGcp, hk]
+      have e : release s f = (s.set f { finalizeGcp o with released := true },
+          .ok (if fires o then [f] else [])) := by
+        unfold release; simp [hl, hk]
+      rw [e]
+      have l2 := live_set_self s f { finalizeGcp o with released := true } (by rw [hf]; exact hoa.2)
+      simp only [exportsOn]
+      rw [l2]
+      simp [hf]
+    | frombuf src rel =>
+      cases rel
+      · have e : release s f = (s.set f { o with kind := .frombuf src true, released := true }, .ok []) := by
+          unfold release; simp [hl, hk]
+        rw [e]
+        have l2 := live_set_self s f { o with kind := .frombuf src true, released := true } hoa.2
+        simp only [exportsOn]
+        rw [l2]
+        simp
+      · simp [release, hl, hk, exportsOn]
+
+/-- **Memory from `ffi.new("struct s *")` stays valid while `p` or `p[0]` is
+alive**: in every reachable state a live struct pointer `p` refers to a live
+struct object, and the collector rule refuses to finalise that struct object as
+long as `p` survives or the program holds a reference to it (`p[0]`). -/
+theorem struct_memory_valid_while_either_alive (ops : List Op) (p sid : Nat) (op : Obj)
+    (hp : (run init ops).live p = some op) (hk : op.kind = .structptr sid) :
+    (∃ os, (run init ops).live sid = some os ∧ isStructTarget os.kind) ∧
+    (∀ S, sid ∈ S → p ∉ S → (step (run init ops) (.collect S)).2 = .error .Reachable) ∧
+    (∀ S os, (run init ops).live sid = some os → 0 < os.ext → sid ∈ S →
+        (step (run init ops) (.collect S)).2 = .error .Reachable) := by
+  have hinv := reachable_inv ops
+  generalize run init ops = s at *
+  have hpo := (live_def s p op).mp hp
+  obtain ⟨os, hos, hosa⟩ := hinv.nd p op hpo.1 hpo.2 sid (by simp [edges, hk])
+  obtain ⟨os', hos', ht⟩ := hinv.sk p op sid hpo.1 hk
+  rw [hos] at hos'; simp at hos'; subst hos'
+  refine ⟨⟨os, (live_def s sid os).mpr ⟨hos, hosa⟩, ht⟩, ?_, ?_⟩
+  · intro S hs hpS
+    have : collectOk s S = false := by
+      rw [Bool.eq_false_iff]
+      intro hc
+      unfold collectOk at hc
+      simp only [Bool.and_eq_true, List.all_eq_true, List.mem_range] at hc
+      have := hc.2 p (lt_next hinv hpo.1)
+      simp only [hp, Bool.or_eq_true, decide_eq_true_eq, List.all_eq_true, Bool.not_eq_eq_eq_not,
+        Bool.not_true, decide_eq_false_iff_not] at this
+      rcases this with h1 | h1
+      · exact hpS h1
+      · exact h1 sid (by simp [edges, hk]) hs
+    simp [step, opCollect, this]
+  · intro S os2 hl hext hs
+    have : collectOk s S = false := by
+      rw [Bool.eq_false_iff]
+      intro hc
+      unfold collectOk at hc
+      simp only [Bool.and_eq_true, List.all_eq_true, List.mem_range] at hc
+      have := hc.1 sid hs
+      simp [hl] at this
+      omega
+    simp [step, opCollect, this]
+
+/-- **Live handles have pairwise distinct addresses.** -/
+theorem handles_distinct (ops : List Op) (h1 h2 x1 x2 a : Nat) (o1 o2 : Obj)
+    (l1 : (run init ops).live h1 = some o1) (l2 : (run init ops).live h2 = some o2)
+    (k1 : o1.kind = .handle x1 a) (k2 : o2.kind = .handle x2 a) : h1 = h2 := by
+  have e1 := (live_def _ _ _).mp l1
+  have e2 := (live_def _ _ _).mp l2
+  exact (reachable_inv ops).hd h1 h2 o1 o2 x1 x2 a e1.1 e2.1 e1.2 e2.2 k1 k2
+
+/-- **`ffi.from_handle(h)` returns the object given to the `new_handle()` call
+that produced `h`**, at any later point of any history at which `h` is alive. -/
+theorem from_handle_returns_original (ops1 ops2 : List Op) (x a h : Nat)
+    (hnew : (step (run init ops1) (.newHandle x a)).2 = .ok [h])
+    (halive : Alive (run (step (run init ops1) (.newHandle x a)).1 ops2) h) :
+    (step (run (step (run init ops1) (.newHandle x a)).1 ops2) (.fromHandle a)).2 = .ok [x] := by
+  have hinv := reachable_inv ops1
+  generalize run init ops1 = s at *
+  have hcreated : ∃ o0, (step s (.newHandle x a)).1.objs h = some o0 ∧ o0.kind = .handle x a := by
+    simp only [step, opNewHandle] at hnew ⊢
+    split at hnew
+    · split at hnew
+      · simp at hnew
+      · simp at hnew; subst hnew
+        simp [*, mkObj]
+    · simp at hnew
+  obtain ⟨o0, h0, hk0⟩ := hcreated
+  have hinv1 := inv_step hinv (.newHandle x a)
+  obtain ⟨o, ho, ev⟩ := run_evolve hinv1 ops2 h o0 h0
+  obtain ⟨o', ho', hoa⟩ := halive
+  rw [ho] at ho'; simp at ho'; subst ho'
+  exact fromHandle_live (inv_run hinv1 ops2) h x a o ((live_def _ _ _).mpr ⟨ho, hoa⟩) (ev.handle x a hk0)
+
+/-! ### Non-vacuity: concrete histories that exercise the hypotheses -/
+
+-- ids: 0 = plain cdata, 1 = destructor object, 2 = the gc wrapper
+def exGc : List Op := [.newPlain, .newPy .dtor, .gc 0 1]
+
+-- the wrapper in a cycle with its destructor (d.fields = [g]), references dropped, then collected
+example : (step (run init [.newPlain, .newPy .dtor]) (.gc 0 1)).2 = .ok [2] := by decide
+example : (run init (exGc ++ [.store 1 2, .dropRef 2, .dropRef 1, .dropRef 0])).calls 2 = 0 := by decide
+example : (step (run init (exGc ++ [.store 1 2, .dropRef 2, .dropRef 1, .dropRef 0])) (.collect [0, 1, 2])).2
+    = .ok [2] := by decide
+example : (run init (exGc ++ [.store 1 2, .dropRef 2, .dropRef 1, .dropRef 0, .collect [0, 1, 2]])).calls 2 = 1 := by
+  decide
+-- the collector may not take the wrapper while the program still holds it
+example : (step (run init exGc) (.collect [2])).2 = .error .Reachable := by decide
+-- release, then release again, then collection: still one call
+example : (run init (exGc ++ [.release 2, .withExit 2, .dropRef 2, .collect [2]])).calls 2 = 1 := by decide
+-- gc(g, None) first: never called
+example : (step (run init exGc) (.gcNone 2)).2 = .ok [] := by decide
+example : (run init (exGc ++ [.gcNone 2, .release 2, .dropRef 2, .collect [2]])).calls 2 = 0 := by decide
+-- allocator: ids 0 = free function, 1 = raw memory, 2 = allocation
+example : (step (run init [.newPy .dtor]) (.allocPlain (some 0))).2 = .ok [2, 1] := by decide
+example : (run init [.newPy .dtor, .allocPlain (some 0), .dropRef 2, .collect [2, 1]]).calls 2 = 1 := by decide
+-- allocator("struct s *"): 0 free, 1 raw, 2 struct wrapper, 3 pointer; release(p) frees, collection does not free again
+example : (step (run init [.newPy .dtor]) (.allocStruct (some 0))).2 = .ok [3, 2, 1] := by decide
+example : (run init [.newPy .dtor, .allocStruct (some 0), .release 3, .dropRef 3, .collect [3, 2]]).calls 2 = 1 := by
+  decide
+-- from_buffer: 0 = bytearray, 1 = view
+example : (step (run init [.newPy .buf, .fromBuffer 0]) (.resize 0)).2 = .error .BufferError := by decide
+example : (step (run init [.newPy .buf, .fromBuffer 0, .release 1]) (.resize 0)).2 = .ok [] := by decide
+example : (step (run init [.newPy .buf, .fromBuffer 0, .dropRef 1, .collect [1]]) (.resize 0)).2 = .ok [] := by decide
+example : (step (run init [.newPy .buf, .fromBuffer 0, .dropRef 0]) (.collect [0])).2 = .error .Reachable := by decide
+-- struct pointer: 0 = struct object, 1 = pointer; p[0] keeps the struct after p is gone
+example : (step (run init [.newStruct]) (.alias 1)).2 = .ok [0] := by decide
+example : (step (run init [.newStruct, .alias 1, .dropRef 1, .collect [1]]) (.collect [0])).2 = .error .Reachable := by
+  decide
+example : (step (run init [.newStruct]) (.collect [0])).2 = .error .Reachable := by decide
+-- handles: 0 = object, 1, 2 = handles at addresses 100, 200; a cycle object -> handle -> object
+example : (step (run init [.newPy .box, .newHandle 0 100]) (.newHandle 0 100)).2 = .error .AddrInUse := by decide
+example : (step (run init [.newPy .box, .newHandle 0 100, .newHandle 0 200]) (.fromHandle 200)).2 = .ok [0] := by
+  decide
+example : (step (run init [.newPy .box, .newHandle 0 100, .store 0 1, .dropRef 0, .dropRef 1]) (.collect [0, 1])).2
+    = .ok [] := by decide
+-- address reuse after the first handle died
+example : (step (run init [.newPy .box, .newHandle 0 100, .dropRef 1, .collect [1]]) (.newHandle 0 100)).2
+    = .ok [2] := by decide
 
 end CffiVerif.C21
